@@ -79,6 +79,7 @@ pub fn run_case(lines: &[Vec<String>], o: &mut Out) {
     let mut es: Vec<E> = vec![];
     let mut weighted = false;
     let mut subs: Vec<Vec<i64>> = vec![];
+    let mut readd: Vec<i64> = vec![];
     for l in lines {
         let mut t = Toks::new(l);
         match t.s() {
@@ -90,6 +91,7 @@ pub fn run_case(lines: &[Vec<String>], o: &mut Out) {
                 es = (0..ke).map(|_| parse_edge(&mut t)).collect();
             }
             "weighted" => weighted = t.i() != 0,
+            "readd" => readd = t.rest_i(),
             "sub" => {
                 let k = t.u();
                 subs.push((0..k).map(|_| t.i()).collect());
@@ -100,7 +102,17 @@ pub fn run_case(lines: &[Vec<String>], o: &mut Out) {
             }
         }
     }
-    let r = guard(|| G::new_from_nodes_and_edges(ns, es, specs.clone()));
+    // build, then re-add the listed nodes (only those that exist): add_node on an existing name only updates its attributes
+    let r = guard(|| {
+        G::new_from_nodes_and_edges(ns, es, specs.clone()).map(|mut g| {
+            for x in &readd {
+                if g.has_node(x) {
+                    g.add_node(std::sync::Arc::new(graphrs::Node { name: *x, attributes: Some(7) }));
+                }
+            }
+            g
+        })
+    });
     o.obs(1, &[vec![res_code(&r)]], &[]);
     let g: G = match r {
         Some(Ok(g)) => g,
